@@ -13,6 +13,7 @@ static std::string case_json(const Case& c) { return "{\"dt\":" + jnum(c.dt) + "
 static std::string case_text(const Case& c) { return dhex(c.dt) + " " + dhex(c.s_over_dt) + " " + dhex(c.t_over_s) + " " + std::to_string(c.pop) + " " + std::to_string(c.in_memory); }
 static Case case_parse(const std::string& s) { std::istringstream i(s); std::string a, b, c; Case k; i >> a >> b >> c >> k.pop >> k.in_memory; k.dt = strtod(a.c_str(), 0); k.s_over_dt = strtod(b.c_str(), 0); k.t_over_s = strtod(c.c_str(), 0); return k; }
 
+static std::string g_obs;   // observable outputs of the current case (statistics without the wall-clock column, mesh files)
 struct SaveRec { unsigned file_number; std::vector<unsigned> ids; std::vector<size_t> nodes; std::vector<int> types; };
 struct StatRow { unsigned iteration; std::string id, type, area, volume, target_volume, pressure; };
 
@@ -67,7 +68,9 @@ static std::string run_case(const Case& cs, long* iterations_out = nullptr, long
         vtk::Parsed PF; std::string e2 = vtk::tokenize(out + "/face_data/result_" + std::to_string(k) + ".vtk", PF, false); if (e2.rfind("unexpected-trailing-content", 0) != 0 && !e2.empty()) return "face-data-file-" + std::to_string(k) + "-malformed-" + e2; }
     // ---- statistics table
     if (!cs.in_memory) { std::ifstream f(out + "/simulation_statistics.csv"); if (!f) return "statistics-file-missing"; std::stringstream ss; ss << f.rdbuf(); stat_text = ss.str(); }
-    std::vector<std::string> lines = split(stat_text, '\n'); if (!lines.empty() && lines.back().empty()) lines.pop_back();
+    std::vector<std::string> lines = split(stat_text, '\n');
+    for (auto& l : lines) { auto f = split(l, ','); for (size_t i = 0; i < f.size(); i++) if (i != 1) g_obs += f[i] + ","; g_obs += "\n"; }
+    for (unsigned k = 1; k <= K; k++) { std::ifstream f(out + "/cell_data/result_" + std::to_string(k) + ".vtk"); std::stringstream ss; ss << f.rdbuf(); g_obs += ss.str(); } if (!lines.empty() && lines.back().empty()) lines.pop_back();
     if (lines.empty()) return "statistics-empty"; std::vector<std::string> header = split(lines[0], ',');
     std::map<std::string, int> col; for (size_t i = 0; i < header.size(); i++) col[header[i]] = (int)i;
     for (const char* need : {"iteration", "simulation_time", "cell_id", "type_id", "area", "volume", "target_volume", "pressure"}) if (!col.count(need)) return std::string("statistics-header-lacks-column: ") + need;
@@ -88,7 +91,7 @@ static void explore(Result& R) {
     for (double dt : dts) for (double a : sdt) for (double b : ts) for (int pop = 0; pop < 5; pop++) for (int mem = 0; mem < 2; mem++) {
         if (!th && mem == 1 && pop != 0 && pop != 3) continue;
         if (R.out_of_time(0.9)) { R.cap("deadline"); goto done; }
-        Case c{dt, a, b, pop, mem}; cases++; std::string e = run_case(c, &iters, &files, &rows);
+        Case c{dt, a, b, pop, mem}; cases++; g_obs.clear(); std::string e = run_case(c, &iters, &files, &rows); R.mix(g_obs + e);
         if (!e.empty()) R.violation(clause_of(e).substr(0, 60) + "|" + pop_name[pop], case_json(c) + ": " + e, "case=" + case_text(c) + "\n");
         if (cases % 150 == 1) R.sample(case_json(c)); }
 done:
